@@ -234,6 +234,24 @@ def judge(ck, cases, hout, mout, crashes):
     return hist
 
 
+def shrink_reload(ck, harness):
+    """replace the first reload violation by the smallest failing (seed, k, n) found"""
+    v = next((v for v in ck.violations if v["key"] == "reload:sequence-differs"), None)
+    if v is None:
+        return
+    cands = ["reload %s %d %s %d -" % (h(1), k, h(2), n) for k in (0, 1, 2) for n in (1, 2, 3, 4, 5, 8)]
+    out, _ = pc.run_harness_resilient(harness, cands)
+    for line, ho in zip(cands, out):
+        parts = (ho or "").split(" | ")
+        if not ((ho or "").startswith("OK ") and len(parts) == 3 and parts[0][3:] == parts[1] and parts[2] == "-"):
+            v["replay"]["found_with"] = v["replay"]["cases"]
+            v["replay"]["cases"] = [line]
+            v["replay"]["impl"] = ho
+            v["what"] += "; minimal: engine(1) saved after %s draws, loaded into engine(2), %s outputs compared" % (
+                line.split()[2], line.split()[4])
+            return
+
+
 # ----------------------------------------------------------------- whole-run testing
 RUN_KINDS = ["ga", "de", "sr_std", "sr_alps", "sr_mse", "sr_count", "class_std", "class_alps"]
 
@@ -274,6 +292,10 @@ def transcript(exe, kind, seed, par, variant):
         env["ASAN_OPTIONS"] += ":malloc_fill_byte=51:max_malloc_fill_size=1048576"
         env["VV_C07_PADDING"] = "x" * (4096 * variant + 123)
         env["VV_C07_MORE"] = "y" * 777
+        # plain (glibc malloc) build: every allocation becomes its own mmap, which are handed out top-down, so the
+        # relative order of heap addresses is REVERSED with respect to run 0 (address-dependent ordering shows up)
+        env["MALLOC_MMAP_THRESHOLD_"] = "0"
+        env["MALLOC_TOP_PAD_"] = "0"
     args = [exe, kind, str(seed)] + ["%s=%s" % kv for kv in sorted(par.items())]
     p = subprocess.run(args, env=env, stdout=subprocess.PIPE, stderr=subprocess.PIPE, timeout=600)
     return p.returncode, p.stdout, p.stderr.decode(errors="replace"), args
@@ -341,9 +363,22 @@ def randomness_lint(snap):
     return sorted(found - ALLOWED_SOURCES), sorted(found)
 
 
+def retry_build(fn, *a, **kw):
+    """vv's snapshot / library cache is shared by all checks running at the same time and garbage-collected by
+    count; when another check evicts our snapshot in the middle of a compile the build fails with a missing file.
+    That is not a property of the tree: build again (a genuine compile error fails every time and is re-raised)."""
+    for attempt in range(4):
+        try:
+            return fn(*a, **kw)
+        except vv.BuildError as e:
+            if attempt == 3 or not re.search(r"No such file or directory|cannot find|file not recognized", str(e)):
+                raise
+            vv.log("build raced with the cache garbage collector, retrying")
+
+
 # ----------------------------------------------------------------- run
 def run(ck):
-    L = vv.build_lib("asan")
+    L = retry_build(vv.build_lib, "asan")
     res = vv.prove("Properties_C07", set())
     ck.add_proof(res)
     res2 = vv.prove("Refuted_C07", set())
@@ -360,12 +395,10 @@ def run(ck):
         "address-dependent behaviour) is not a theorem; it is TESTED by the double-run comparison "
         "(separate processes, different environment size, MALLOC_PERTURB_/ASan malloc fill, ASLR) on a finite set of configurations",
     ]
-    harness = vv.build_harness("h_rng")
+    harness = retry_build(vv.build_harness, "h_rng")
     model = vv.ocaml_model("Rng")
-    runner = vv.build_harness("h_rng_run")
-    exes = [("asan", runner)]
-    if ck.thorough:
-        exes.append(("plain", vv.build_harness("h_rng_run", san="plain")))
+    runner = retry_build(vv.build_harness, "h_rng_run")
+    exes = [("asan", runner), ("plain", retry_build(vv.build_harness, "h_rng_run", san="plain"))]
 
     rp = json.load(open(ck.replay_path)) if ck.replay_path else None
     if rp and rp.get("cases"):
@@ -396,6 +429,7 @@ def run(ck):
     if rc != 0 or len(mout) != len(lines):
         raise vv.BuildError("model driver failed: rc=%s %s" % (rc, merr[:500]))
     hist = judge(ck, cases, hout, mout, crashes)
+    shrink_reload(ck, harness)
     ck.coverage["per_case_kind"] = hist
 
     nruns = double_runs(ck, exes, cfgs)
